@@ -598,72 +598,38 @@ impl LuaModuleIndex {
 
 impl LuaIndex for LuaModuleIndex {
     fn remove(&mut self, file_id: FileId) {
-        let (mut parent_id, mut child_id) =
-            if let Some(module_info) = self.file_module_map.remove(&file_id) {
-                let module_id = module_info.module_id;
-                let node = match self.module_nodes.get_mut(&module_id) {
-                    Some(node) => node,
-                    None => return,
-                };
-                node.file_ids.retain(|id| *id != file_id);
-                if node.file_ids.is_empty() && node.children.is_empty() {
-                    (node.parent, Some(module_id))
-                } else {
-                    (None, None)
-                }
-            } else {
-                (None, None)
-            };
-
-        if parent_id.is_none() || child_id.is_none() {
+        let Some(module_info) = self.file_module_map.remove(&file_id) else {
             return;
+        };
+
+        // the fuzzy-name map is keyed by the last segment of the module name
+        if let Some(file_ids) = self.module_name_to_file_ids.get_mut(&module_info.name) {
+            file_ids.retain(|id| *id != file_id);
+            if file_ids.is_empty() {
+                self.module_name_to_file_ids.remove(&module_info.name);
+            }
         }
 
-        while let Some(id) = parent_id {
-            let child_module_id = match child_id {
-                Some(id) => id,
-                None => break,
-            };
-            let node = match self.module_nodes.get_mut(&id) {
-                Some(node) => node,
-                None => break,
-            };
-            node.children
-                .retain(|_, node_child_idid| *node_child_idid != child_module_id);
+        let mut node_id = module_info.module_id;
+        match self.module_nodes.get_mut(&node_id) {
+            Some(node) => node.file_ids.retain(|id| *id != file_id),
+            None => return,
+        }
 
-            if id == self.module_root_id {
-                return;
-            }
-
-            if node.file_ids.is_empty() && node.children.is_empty() {
-                child_id = Some(id);
-                parent_id = node.parent;
-                self.module_nodes.remove(&id);
-            } else {
+        // prune every node that became empty, from the leaf up to (excluding) the root
+        while node_id != self.module_root_id {
+            let parent_id = match self.module_nodes.get(&node_id) {
+                Some(node) if node.file_ids.is_empty() && node.children.is_empty() => node.parent,
+                _ => break,
+            };
+            self.module_nodes.remove(&node_id);
+            let Some(parent_id) = parent_id else {
                 break;
+            };
+            if let Some(parent) = self.module_nodes.get_mut(&parent_id) {
+                parent.children.retain(|_, child_id| *child_id != node_id);
             }
-        }
-
-        if !self.module_name_to_file_ids.is_empty() {
-            let mut module_name = String::new();
-            for (name, file_ids) in &self.module_name_to_file_ids {
-                if file_ids.contains(&file_id) {
-                    module_name = name.clone();
-                    break;
-                }
-            }
-
-            if !module_name.is_empty() {
-                let file_ids = match self.module_name_to_file_ids.get_mut(&module_name) {
-                    Some(ids) => ids,
-                    None => return,
-                };
-
-                file_ids.retain(|id| *id != file_id);
-                if file_ids.is_empty() {
-                    self.module_name_to_file_ids.remove(&module_name);
-                }
-            }
+            node_id = parent_id;
         }
     }
 
